@@ -42,6 +42,9 @@ def install(w):
     w.define("LoSur", "c", "0xDC00 <= c <= 0xDFFF")
     w.define("LT", "c", "c == 10 or c == 13")
     w.define("Ignored", "c", "c == 32 or c == 9 or c == 44 or c == 0xFEFF or c == 10 or c == 13")
+    # Punctuator :: ! $ & ( ) : = @ [ ] { | }   (the spread ... is handled apart)
+    w.define("Punct1", "c", "c == 33 or c == 36 or c == 38 or c == 40 or c == 41 or c == 58 or c == 61"
+                            " or c == 64 or c == 91 or c == 93 or c == 123 or c == 124 or c == 125")
 
     # ---- character classes (operands of length <= 1; the empty string is in no class) -------------
     for fn, pred in (("is_digit", "Digit"), ("is_letter", "Letter"),
@@ -84,7 +87,8 @@ def install(w):
                ensures=["result.kind == kind", "result.start == start", "result.end == end",
                         "result.line == self.line", "result.column == 1 + start - self.line_start",
                         "result.prev is None", "result.next is None",
-                        "(result.value is None) == (value is None)"],
+                        "(result.value is None) == (value is None)",
+                        "implies(value is not None, result.value == value)"],
                modifies=[], props={"C01", "C09", "C10"})
 
     w.contract(f"{M}.Lexer.print_code_point_at", params={"location": "int"}, returns="str",
@@ -115,14 +119,67 @@ def install(w):
     w.contract(f"{M}.Lexer.read_name", params={"start": "int"}, returns="obj:Token",
                requires=["0 <= start < len(self.source.body)",
                          "NameStart(cp(self.source.body, start))"],
-               ensures=COMMON_POST + SAME + ["result.kind == TokenKind.NAME"],
+               ensures=COMMON_POST + SAME + [
+                   "result.kind == TokenKind.NAME",
+                   # Name :: NameStart NameContinue* [lookahead != NameContinue]
+                   "forall(i, start, result.end, NameCont(cp(self.source.body, i)))",
+                   "result.end == len(self.source.body)"
+                   " or not NameCont(cp(self.source.body, result.end))",
+                   "result.value is not None",
+                   "result.value == self.source.body[start:result.end]"],
                modifies=[],
                loops={1: {"invariant": ["start < position <= body_length",
                                         "body_length == len(body)",
+                                        "forall(i, start, position, NameCont(cp(body, i)))",
                                         "not LT(cp(body, position - 1))",
                                         "SameLine(body, start, position)"],
                           "variant": "body_length - position"}},
                props={"C01", "C09", "C10"})
+
+    # IntValue :: IntegerPart [lookahead != {Digit, `.`, NameStart}]
+    # FloatValue :: IntegerPart (FractionalPart | ExponentPart | FractionalPart ExponentPart) [same]
+    # IntegerPart :: -? 0 | -? NonZeroDigit Digit*   FractionalPart :: . Digit+
+    # ExponentPart :: [eE] [+-]? Digit+
+    # stated as local facts over the span [start, end) of the token (B the body, I0 the offset of the
+    # first digit); together they admit exactly the strings of the grammar above
+    w.define("NumI0", "b, s", "ite(cp(b, s) == 45, s + 1, s)")
+    w.define("IsE", "c", "c == 69 or c == 101")
+    w.define("IsSign", "c", "c == 43 or c == 45")
+    w.define("NumChar", "c", "(48 <= c <= 57) or c == 43 or c == 45 or c == 46 or c == 69 or c == 101")
+    NUMBER_GRAMMAR = [
+        "Digit(cp(self.source.body, NumI0(self.source.body, start)))",
+        # no leading zero
+        "implies(cp(self.source.body, NumI0(self.source.body, start)) == 48,"
+        " not (NumI0(self.source.body, start) + 1 < result.end"
+        " and Digit(cp(self.source.body, NumI0(self.source.body, start) + 1))))",
+        # lookahead restriction and maximal munch
+        "result.end == len(self.source.body) or not (cp(self.source.body, result.end) == 46"
+        " or NameStart(cp(self.source.body, result.end)) or Digit(cp(self.source.body, result.end)))",
+        "Digit(cp(self.source.body, result.end - 1))",
+        "forall(i, start, result.end, NumChar(cp(self.source.body, i)))",
+        # a sign only at the start or right after the exponent marker
+        "forall(i, start + 1, result.end, implies(IsSign(cp(self.source.body, i)),"
+        " IsE(cp(self.source.body, i - 1))))",
+        # a dot has a digit on both sides; there is at most one
+        "forall(i, start + 1, result.end, implies(cp(self.source.body, i) == 46,"
+        " Digit(cp(self.source.body, i - 1)) and Digit(cp(self.source.body, i + 1))))",
+        "forall_int(i, j, implies(start <= i and i < j and j < result.end"
+        " and cp(self.source.body, i) == 46, cp(self.source.body, j) != 46))",
+        # after the exponent marker: an optional sign, then digits only
+        "forall_int(i, j, implies(start <= i and i < j and j < result.end"
+        " and IsE(cp(self.source.body, i)), Digit(cp(self.source.body, j))"
+        " or (j == i + 1 and IsSign(cp(self.source.body, j)))))",
+        # the exponent marker follows a digit
+        "forall(i, start + 1, result.end, implies(IsE(cp(self.source.body, i)),"
+        " Digit(cp(self.source.body, i - 1))))",
+        # kind: Int iff digits only
+        "implies(result.kind == TokenKind.INT, forall(i, NumI0(self.source.body, start), result.end,"
+        " Digit(cp(self.source.body, i))))",
+        "implies(result.kind == TokenKind.FLOAT, exists(i, start + 1, result.end - 1,"
+        " cp(self.source.body, i) == 46 or IsE(cp(self.source.body, i))))",
+        "result.value is not None",
+        "result.value == self.source.body[start:result.end]",
+    ]
 
     w.contract(f"{M}.Lexer.read_digits", params={"start": "int", "first_char": "str"},
                returns="int",
@@ -133,10 +190,17 @@ def install(w):
                ensures=["start < result <= len(self.source.body)",
                         "Digit(cp(self.source.body, start))",
                         "Digit(cp(self.source.body, result - 1))",
+                        # Digit+ with maximal munch
+                        "forall(i, start, result, Digit(cp(self.source.body, i)))",
+                        "result == len(self.source.body) or not Digit(cp(self.source.body, result))",
                         "SameLine(self.source.body, start, result)"],
-               raises=["GraphQLSyntaxError"], modifies=[],
+               raises=["GraphQLSyntaxError"],
+               # rejects only when there is no digit at all
+               raise_post=["not (len(first_char) == 1 and Digit(cp(first_char, 0)))"],
+               modifies=[],
                loops={1: {"invariant": ["start < position <= body_length",
                                         "body_length == len(body)",
+                                        "forall(i, start, position, Digit(cp(body, i)))",
                                         "Digit(cp(body, position - 1))",
                                         "SameLine(body, start, position)"],
                           "variant": "body_length - position"}},
@@ -148,7 +212,7 @@ def install(w):
                          "cp(first_char, 0) == cp(self.source.body, start)",
                          "Digit(cp(first_char, 0)) or cp(first_char, 0) == 45"],
                ensures=COMMON_POST + SAME + [
-                   "result.kind == TokenKind.INT or result.kind == TokenKind.FLOAT"],
+                   "result.kind == TokenKind.INT or result.kind == TokenKind.FLOAT"] + NUMBER_GRAMMAR,
                raises=["GraphQLSyntaxError"], modifies=[],
                props={"C01", "C09", "C10"})
 
@@ -223,6 +287,15 @@ def install(w):
                         "implies(result.kind != TokenKind.EOF, result.end > result.start)",
                         "result.kind != TokenKind.SOF"],
                raises=["GraphQLSyntaxError"], modifies=["self.line", "self.line_start"],
+               # the dispatch is total over the lexical grammar: read_next_token itself rejects a
+               # position only when the character there is not ignored and starts no token
+               raise_post=["not Ignored(cp(body, position))",
+                           "cp(body, position) != 35", "cp(body, position) != 34",
+                           "not Punct1(cp(body, position))",
+                           "not Digit(cp(body, position))", "cp(body, position) != 45",
+                           "not NameStart(cp(body, position))",
+                           "not (position + 2 < len(body) and cp(body, position) == 46"
+                           " and cp(body, position + 1) == 46 and cp(body, position + 2) == 46)"],
                loops={1: {"invariant": ["start <= position <= body_length",
                                         "body_length == len(body)",
                                         "not midCRLF(body, position)",
